@@ -178,7 +178,7 @@ static void run_message(vh_ctx_t * v, msg_t * m, int via_flush, const char * how
     const char * key;
     vh_ctx_clear_capture(v);
     v->sigs = sigs; v->nsigs = NQ + NC;
-    if (via_flush) { if (m->text.len) vh_deliver(v, m->text.p, m->text.len, 1 + (int) (m->text.len % 2)); else vh_input(v, NULL, 0); }
+    if (via_flush) { if (m->text.len) vh_deliver(v, m->text.p, m->text.len, 0, 1 + (int) (m->text.len % 2)); else vh_input(v, NULL, 0); }
     else { vh_buf_t t = { 0, 0, 0 }; vh_buf_add(&t, m->text.p, m->text.len); vh_buf_adds(&t, (via_flush & 2) ? "\r\n" : "\n"); vh_input(v, t.p, t.len); vh_buf_free(&t); }
     vh_eval(1);
     if (v->nsrq) vh_count("status.service_request_raised_during_the_message", 1);
